@@ -200,6 +200,11 @@ func C17Scenario() *Scenario {
 					}
 				},
 				Check: func(w *World) *Violation {
+					if w.fp == nil || w.fp.Checked == 0 {
+						// the cache oracle never saw a cached object: the factory's layout is not
+						// what sim/fingerprint.go expects, and a silent pass would be worthless
+						return &Violation{Prop: "HARNESS", Class: "cache-oracle-blind", Detail: "no object of the shared informer caches could be read in this run"}
+					}
 					if v := c17HookOracle(w, s.Sig, fps); v != nil {
 						return v
 					}
